@@ -1680,6 +1680,22 @@ def O4(ctx, rule="O4"):
                 if ty.startswith("std::result::Result"):
                     return "result"
             return None
+        def state_eq_of_switch(sb):
+            """(index of V, polarity) when the switch tests `<state> == StreamOutcomeState::V` (or `!=`)"""
+            de = strip_refs(switch_expr(b, sb))
+            pos = True
+            while de.kind == "unop" and de[1] == "Not":
+                pos = not pos
+                de = strip_refs(de[2])
+            if de.kind == "call" and de[1] in ("std::cmp::PartialEq::eq", "std::cmp::PartialEq::ne") and len(de[2]) == 2:
+                ops = [strip_refs(q) for q in de[2]]
+                lit = [q for q in ops if q.kind == "agg" and q[2] == "stream_outcome::StreamOutcomeState" and not q[4]]
+                oth = [q for q in ops if not (q.kind == "agg" and q[2] == "stream_outcome::StreamOutcomeState")]
+                if len(lit) == 1 and len(oth) == 1 and lit[0][3] in st_names and oth[0].kind == "field":
+                    if de[1].endswith("::ne"):
+                        pos = not pos
+                    return str(st_names.index(lit[0][3])), pos
+            return None
         conts = []
         kinds = set()
         problems = []
@@ -1701,6 +1717,14 @@ def O4(ctx, rule="O4"):
                     if "result" in tags:
                         listed = [vv for sb in sym_bb[sym] for vv, _ in b.blocks[sb]["term"]["targets"]]
                         rv_ = v if v != "otherwise" else ("1" if listed == ["0"] else ("0" if listed == ["1"] else "otherwise"))
+                    se_ = [state_eq_of_switch(sb) for sb in sym_bb.get(sym, ())]
+                    se_ = [q for q in se_ if q is not None]
+                    if se_ and "state" not in tags:
+                        # `outcome.state == StreamOutcomeState::Finished` as the test
+                        idx_, pos_ = se_[0]
+                        holds = (v == "otherwise") if pos_ else (v == "0")
+                        if v in ("otherwise", "0"):
+                            sv_ = idx_ if holds else "not:" + idx_
                     if "state" in tags:
                         if v == "otherwise":
                             listed = {vv for sb in sym_bb[sym] for vv, _ in b.blocks[sb]["term"]["targets"]}
@@ -2358,8 +2382,9 @@ def G_rules(ctx, rule="G"):
                   "GraphInfo == compares node weights and (source, target, weight) of every edge",
                   "GraphInfo == compares only %s" % sorted(attrs))
         # every pairwise comparison is a conjunction starting from `true` (two empty sequences are equal)
-        from rules_build import conjunctive_consumer, iter_eq_same_projection, eq_same_attribute, eq_monotone
+        from rules_build import conjunctive_consumer, iter_eq_same_projection, eq_same_attribute, eq_monotone, eq_no_reorder
         eq_same_attribute(ctx, rule + "5", eqb, "GraphInfo ==")
+        eq_no_reorder(ctx, rule + "5", eqb, "GraphInfo ==")
         eq_monotone(ctx, rule + "5", eqb, "GraphInfo ==", [(bx.id, bb) for bx in m.reach_bodies(eqb.id) for bb, t in bx.calls()
                                                           if callee_path(t) in ("std::iter::Iterator::eq", "std::iter::Iterator::all")])
         n_ie = 0
@@ -2384,6 +2409,8 @@ def G_rules(ctx, rule="G"):
                     chain = iterator_chain(ctx, bx, expr_operand(bx, t["args"][0]))
                     if "std::iter::Iterator::zip" in [c[0] for c in chain]:
                         nz += 1
+                        from rules_build import zip_sides_same
+                        zip_sides_same(ctx, rule + "5", chain, "%d" % nz, m.where(bx, bb), "GraphInfo ==")
                         okc, whyc = conjunctive_consumer(ctx, bx, bb, t)
                         ctx.check(okc, rule + "5", "conjunctive|%d" % nz, m.where(bx, bb),
                                   "pairwise comparison is a conjunction over all pairs (%s)" % whyc,
